@@ -1,4 +1,5 @@
 import SE.Proofs.RegistryLabels
+import SE.Proofs.Hash
 import SE.Spec.FloatLaws
 /-
 C05 — Labels come only from the event's own tags and its own rule.
@@ -167,5 +168,89 @@ example : mergeLabels tags0 rl0 false = [([97], [49]), ([98], [57]), ([99], [51]
 -- with honor_labels the tagged b survives, c is still added
 example : mergeLabels tags0 rl0 true = [([97], [49]), ([98], [50]), ([99], [51])] := by decide
 example : (mergeLabels [([99], [49]), ([97], [50])] [] false).sorted = [([97], [50]), ([99], [49])] := by decide
+
+/-! ### The registry's label-hash inputs are injective
+
+`Registry.HashLabels` (SE/Model/Hash.lean) feeds FNV-64a with `namesHashInput l` (every sorted label
+name followed by the separator byte 0xFF) for the vector, and with `valuesHashInput l` (the same,
+then 0xFF, then every value in name order followed by 0xFF) for the series. The models identify
+vectors by the sorted label names and series by the sorted label list; that is sound iff these byte
+strings determine them. They do, for labels without the byte 0xFF (`NoSep`: every label the line parser
+produces, because lines are valid UTF-8 and 0xFF occurs in no UTF-8 sequence). Non-emptiness of the
+label names is NOT needed: the boundary between names and values in the values input is fixed by
+there being as many values as names. What remains assumed is that FNV-64a itself does not collide. -/
+
+/-- equal names-hash inputs ⇒ the same sorted label names -/
+theorem names_hash_input_injective (a b : Labels) (ha : NoSep a) (hb : NoSep b) :
+    namesHashInput a = namesHashInput b → a.sorted.map (·.1) = b.sorted.map (·.1) :=
+  namesHashInput_inj a b (fun kv h => (ha kv h).1) (fun kv h => (hb kv h).1)
+
+/-- equal values-hash inputs ⇒ the same sorted label list (names and values) -/
+theorem values_hash_input_injective (a b : Labels) (ha : NoSep a) (hb : NoSep b) :
+    valuesHashInput a = valuesHashInput b → a.sorted = b.sorted :=
+  valuesHashInput_inj a b ha hb
+
+/-- the converses hold without any hypothesis … -/
+theorem names_hash_input_congr (a b : Labels) :
+    a.sorted.map (·.1) = b.sorted.map (·.1) → namesHashInput a = namesHashInput b :=
+  namesHashInput_congr a b
+
+theorem values_hash_input_congr (a b : Labels) :
+    a.sorted = b.sorted → valuesHashInput a = valuesHashInput b :=
+  valuesHashInput_congr a b
+
+/-- … so the names hash input identifies exactly the sorted label names, -/
+theorem names_hash_input_iff (a b : Labels) (ha : NoSep a) (hb : NoSep b) :
+    namesHashInput a = namesHashInput b ↔ a.sorted.map (·.1) = b.sorted.map (·.1) :=
+  ⟨names_hash_input_injective a b ha hb, names_hash_input_congr a b⟩
+
+/-- and the values hash input exactly the sorted label list. -/
+theorem values_hash_input_iff (a b : Labels) (ha : NoSep a) (hb : NoSep b) :
+    valuesHashInput a = valuesHashInput b ↔ a.sorted = b.sorted :=
+  ⟨values_hash_input_injective a b ha hb, values_hash_input_congr a b⟩
+
+/-- the generic core: the separator encoding is injective on separator-free pieces -/
+theorem sep_encoding_injective {α : Type} (sep : α) (xs ys : List (List α)) :
+    xs.flatMap (· ++ [sep]) = ys.flatMap (· ++ [sep]) →
+    (∀ x ∈ xs, sep ∉ x) → (∀ y ∈ ys, sep ∉ y) → xs = ys :=
+  flatMap_sep_injective sep xs ys
+
+/- Non-vacuity, and the hypotheses are needed. -/
+
+-- {b="2", a="1"}: names input `a FF b FF`, values input `a FF b FF FF 1 FF 2 FF`
+example : namesHashInput [([98], [50]), ([97], [49])] = [97, 255, 98, 255] ∧
+    valuesHashInput [([98], [50]), ([97], [49])] = [97, 255, 98, 255, 255, 49, 255, 50, 255] ∧
+    NoSep [([98], [50]), ([97], [49])] := by decide
+
+-- WITHOUT `NoSep` injectivity fails: a value containing 0xFF shifts the boundary between two values
+-- ({a="1\xFF2", b="3"} and {a="1", b="2\xFF3"} have the same values input) …
+example :
+    valuesHashInput [([97], [49, 255, 50]), ([98], [51])] = valuesHashInput [([97], [49]), ([98], [50, 255, 51])] ∧
+    Labels.sorted [([97], [49, 255, 50]), ([98], [51])] ≠ Labels.sorted [([97], [49]), ([98], [50, 255, 51])] ∧
+    ¬ NoSep [([97], [49, 255, 50]), ([98], [51])] := by decide
+
+-- … and a name containing 0xFF makes one name look like two
+example :
+    namesHashInput [([97, 255, 98], [49])] = namesHashInput [([97], [49]), ([98], [50])] ∧
+    (Labels.sorted [([97, 255, 98], [49])]).map (·.1) ≠ (Labels.sorted [([97], [49]), ([98], [50])]).map (·.1) := by
+  decide
+
+/- The seeded defect `separator written as a rune`: if the separator is written as the two bytes
+   C3 BF (the UTF-8 encoding of U+00FF) instead of the single byte FF, `NoSep` for that separator is
+   no longer implied by UTF-8 validity — `ÿ` is a legal character in a tag value — and injectivity
+   breaks for legal input: {a="xÿy", b="z"} and {a="x", b="yÿz"} get the same values hash, i.e. two
+   different series are merged into one. -/
+private def valuesInputWith (sep : Bytes) (l : Labels) : Bytes :=
+  l.sorted.flatMap (fun kv => kv.1 ++ sep) ++ sep ++ l.sorted.flatMap (fun kv => kv.2 ++ sep)
+
+example (l : Labels) : valuesInputWith [sepByte] l = valuesHashInput l := by
+  simp [valuesInputWith, valuesHashInput, nameBuf, valueBuf]
+
+example :
+    valuesInputWith [0xC3, 0xBF] [([97], [120, 0xC3, 0xBF, 121]), ([98], [122])]
+      = valuesInputWith [0xC3, 0xBF] [([97], [120]), ([98], [121, 0xC3, 0xBF, 122])] ∧
+    NoSep [([97], [120, 0xC3, 0xBF, 121]), ([98], [122])] ∧ NoSep [([97], [120]), ([98], [121, 0xC3, 0xBF, 122])] ∧
+    Labels.sorted [([97], [120, 0xC3, 0xBF, 121]), ([98], [122])]
+      ≠ Labels.sorted [([97], [120]), ([98], [121, 0xC3, 0xBF, 122])] := by decide
 
 end SE.Props.C05
